@@ -291,11 +291,11 @@ example : resolveArguments (resolveMacro []) 0 (.arr [[47, 112]])
 theorem exit_mapping :
     exitToState 0 = 0 ∧ exitToState 1 = 1 ∧ exitToState 2 = 2 ∧ exitToState 3 = 3 ∧
     (∀ e : Int, e ≠ 0 → e ≠ 1 → e ≠ 2 → exitToState e = 3) ∧
-    (∀ e raw, (processFinished e raw).state = exitToState e ∧ (processFinished e raw).exit = e) := by
+    (∀ sfx e raw, (processFinished sfx e raw).state = exitToState e ∧ (processFinished sfx e raw).exit = e) := by
   refine ⟨by decide, by decide, by decide, by decide, ?_, ?_⟩
   · intro e h0 h1 h2
     simp [exitToState, h0, h1, h2]
-  · intro e raw
+  · intro sfx e raw
     simp [processFinished]
 
 /-- On each output line the text after the first `|` is performance data exactly when it contains `=`;
@@ -354,9 +354,9 @@ example : parseCheckOutput [79, 75, 32, 124, 32, 97, 61, 49, 10, 120, 124, 121] 
 /-- The model's check result meets the specification predicates the driver evaluates on the
     implementation's observations (`exit_mapping`, `output_text`, `perfdata`), for every exit status and
     every plugin output. -/
-theorem model_result_meets_spec (exit : Int) (raw : Bytes) :
-    specExit exit (processFinished exit raw).state (processFinished exit raw).exit = none ∧
-    specOutput exit raw (processFinished exit raw).output (processFinished exit raw).perfdata = none := by
+theorem model_result_meets_spec (suffix : Bytes) (exit : Int) (raw : Bytes) :
+    specExit exit (processFinished suffix exit raw).state (processFinished suffix exit raw).exit = none ∧
+    specOutput suffix exit raw (processFinished suffix exit raw).output (processFinished suffix exit raw).perfdata = none := by
   constructor
   · simp [specExit, processFinished, specState_eq]
   · have h : ∀ out, (parseCheckOutput out) =
@@ -410,8 +410,8 @@ example :
 
 -- the predicates are not vacuous: a wrong state, a perfdata part left in the output are rejected
 example : specExit 2 3 2 = some .exitMapping := by decide
-example : specOutput 0 [79, 75, 124, 97, 61, 49] [79, 75, 124, 97, 61, 49] [] = some .outputText := by decide
-example : specOutput 0 [79, 75, 124, 97, 61, 49] [79, 75] [[97, 61, 49]] = none := by decide
+example : specOutput [] 0 [79, 75, 124, 97, 61, 49] [79, 75, 124, 97, 61, 49] [] = some .outputText := by decide
+example : specOutput [] 0 [79, 75, 124, 97, 61, 49] [79, 75] [[97, 61, 49]] = none := by decide
 example : specStringCmd [47, 112, 32, 36, 97, 36] (fun _ => some [120, 32, 121]) [[47, 112], [120], [121]] = some .stringCmdVerbatim := by decide
 example : specStringCmd [47, 112, 32, 36, 97, 36] (fun _ => some [120, 32, 121]) [[47, 112], [120, 32, 121]] = none := by decide
 
